@@ -1,8 +1,10 @@
 package main
 
 // C05: every decoding entry point on arbitrary input.  Observation of `tot.<entry> <bytes> [n]`:
-//   [0 u]      returned (value or error); u = 1 when every caller-supplied buffer a read-only
-//              operation was given is byte-for-byte unchanged afterwards, 0 otherwise
+//   [0 u e]    returned (value or error); u = 1 when every caller-supplied buffer a read-only
+//              operation was given is byte-for-byte unchanged afterwards, 0 otherwise; e = 1 when the group's
+//              PRIMARY decoder call returned a non-nil error (totE(err) marks the call; the e_* functions of
+//              Exec/TotExec.v answer the same from the models), 0 for a group without one
 //   [2 xSITE]  panicked; SITE = ASCII "<gots frame>|<kind>" of the innermost library frame
 // A hang / heap blow-up is reported by the watchdog of main.go as [3].
 
@@ -56,6 +58,15 @@ func totPkt(b []byte) *packet.Packet {
 	return &p
 }
 
+// totErr is the accept / reject bit of the running group: set by totE at the primary decoder call
+var totErr bool
+
+func totE(err error) {
+	if err != nil {
+		totErr = true
+	}
+}
+
 // tot wraps an entry: f gets a private exact-capacity copy of the input and the optional integer;
 // it returns false when it observed a read-only operation modifying a caller buffer.
 func tot(name string, f func(b []byte, n int) bool) {
@@ -71,8 +82,9 @@ func tot(name string, f func(b []byte, n int) bool) {
 				r = VL(VI(2), VB([]byte(panicSite(fmt.Sprint(e)))))
 			}
 		}()
+		totErr = false
 		ok := f(in, n)
-		return VL(VI(0), VBool(ok))
+		return VL(VI(0), VBool(ok), VBool(totErr))
 	})
 }
 
@@ -243,7 +255,8 @@ func init() {
 		packet.ContinuityCounter(p)
 		packet.IsNull(p)
 		packet.IsPat(p)
-		packet.Payload(p)
+		_, perr := packet.Payload(p)
+		totE(perr)
 		packet.Header(p)
 		packet.PESHeader(p)
 		packet.IncrementCC(p)
@@ -274,7 +287,8 @@ func init() {
 		}
 		d0 := append([]byte{}, d...)
 		p.SetPayload(d)
-		p.Payload()
+		_, perr := p.Payload()
+		totE(perr)
 		packet.Payload(p)
 		return totSame(d, d0)
 	})
@@ -291,7 +305,8 @@ func init() {
 	tot("pkt.setafc", func(b []byte, n int) bool {
 		p := totPkt(b)
 		p.SetAdaptationFieldControl(packet.AdaptationFieldControlOptions(n & 3))
-		p.Payload()
+		_, perr := p.Payload()
+		totE(perr)
 		packet.Header(p)
 		return true
 	})
@@ -302,6 +317,7 @@ func init() {
 		}
 		q := *p
 		af, err := p.AdaptationField()
+		totE(err)
 		if err != nil {
 			return true
 		}
@@ -331,6 +347,7 @@ func init() {
 			p[3] |= 0x20
 		}
 		af, err := p.AdaptationField()
+		totE(err)
 		if err != nil {
 			return true
 		}
@@ -425,6 +442,7 @@ func init() {
 		psi.PrivateIndicator(b)
 		psi.SectionLength(b)
 		th, err := psi.TableHeaderFromBytes(b)
+		totE(err)
 		if err == nil {
 			th.Data()
 		}
@@ -434,6 +452,7 @@ func init() {
 	tot("psi.pat", func(b []byte, n int) bool {
 		b0 := append([]byte{}, b...)
 		p, err := psi.NewPAT(b)
+		totE(err)
 		if err == nil {
 			p.NumPrograms()
 			p.ProgramMap()
@@ -445,6 +464,7 @@ func init() {
 	tot("psi.pmt", func(b []byte, n int) bool {
 		b0 := append([]byte{}, b...)
 		p, err := psi.NewPMT(b)
+		totE(err)
 		if err == nil {
 			_ = p.String()
 			p.Pids()
@@ -458,6 +478,13 @@ func init() {
 				p.IsPidForStreamWherePresentationLagsEbp(pid)
 			}
 			for _, e := range p.ElementaryStreams() {
+				// fmt recovers a panic of a String() it calls itself; call the nested printers directly as well
+				if sr, ok := e.(fmt.Stringer); ok {
+					_ = sr.String()
+				}
+				if sr, ok := psi.LookupPmtStreamType(e.StreamType()).(fmt.Stringer); ok {
+					_ = sr.String()
+				}
 				e.MaxBitRate()
 				e.IsTTMLSubtitling()
 				e.StreamTypeDescription()
@@ -467,6 +494,9 @@ func init() {
 				e.IsID3Content()
 				for _, d := range e.Descriptors() {
 					d.Format()
+					if sr, ok := d.(fmt.Stringer); ok {
+						_ = sr.String()
+					}
 					d.IsIFrameProfile()
 					d.IsDolbyATMOS()
 					d.IsDolbyVision()
@@ -498,12 +528,14 @@ func init() {
 	})
 	tot("psi.done", func(b []byte, n int) bool {
 		b0 := append([]byte{}, b...)
-		psi.PmtAccumulatorDoneFunc(b)
+		_, derr := psi.PmtAccumulatorDoneFunc(b)
+		totE(derr)
 		return totSame(b, b0)
 	})
 	tot("psi.crc", func(b []byte, n int) bool {
 		b0 := append([]byte{}, b...)
-		psi.ExtractCRC(b)
+		_, cerr := psi.ExtractCRC(b)
+		totE(cerr)
 		return totSame(b, b0)
 	})
 	tot("psi.filter", func(b []byte, n int) bool {
@@ -520,7 +552,8 @@ func init() {
 		}
 		pids := totFilterPids(pk, n)
 		pids0 := append([]int{}, pids...)
-		psi.FilterPMTPacketsToPids(pk, pids)
+		_, ferr := psi.FilterPMTPacketsToPids(pk, pids)
+		totE(ferr)
 		for i := range pk {
 			if snap[i] != *pk[i] {
 				return false
@@ -539,6 +572,7 @@ func init() {
 	tot("psi.readpat", func(b []byte, n int) bool {
 		b0 := append([]byte{}, b...)
 		p, err := psi.ReadPAT(bytes.NewReader(b))
+		totE(err)
 		if err == nil && p != nil {
 			p.NumPrograms()
 			p.ProgramMap()
@@ -555,6 +589,7 @@ func init() {
 			}
 		}
 		p, err := psi.ReadPMT(bytes.NewReader(b), n)
+		totE(err)
 		if err == nil && p != nil {
 			_ = p.String()
 			p.Pids()
@@ -564,6 +599,7 @@ func init() {
 	tot("pes.new", func(b []byte, n int) bool {
 		b0 := append([]byte{}, b...)
 		h, err := pes.NewPESHeader(b)
+		totE(err)
 		if err == nil {
 			h.Data()
 			h.PTS()
@@ -586,6 +622,7 @@ func init() {
 	tot("ebp.read", func(b []byte, n int) bool {
 		b0 := append([]byte{}, b...)
 		e, err := ebp.ReadEncoderBoundaryPoint(b)
+		totE(err)
 		if err == nil && e != nil {
 			e.Data()
 			e.EBPTime()
@@ -607,6 +644,7 @@ func init() {
 	tot("scte.new", func(b []byte, n int) bool {
 		b0 := append([]byte{}, b...)
 		s, err := scte35.NewSCTE35(b)
+		totE(err)
 		if err == nil {
 			_ = s.String()
 			s.HasPTS()
@@ -679,7 +717,8 @@ func init() {
 		b0 := append([]byte{}, b...)
 		sz := 16 + n%4096
 		r := bufio.NewReaderSize(bytes.NewReader(b), sz)
-		packet.Sync(r)
+		_, serr := packet.Sync(r)
+		totE(serr)
 		packet.IsSynced(bufio.NewReaderSize(bytes.NewReader(b), sz))
 		return totSame(b, b0)
 	})
